@@ -18,7 +18,8 @@ RN == <<"rn", 0>>      \* a 16-digit number (digits only)
 
 ParaShapes ==
     { <<R>>, <<R, R>>, <<RX>>, <<RX, R>>, <<R, RX>>, <<RN>> }
-    \cup { <<R, x, R>> : x \in { <<"tab">>, <<"br">> } }
+    \cup { <<R, x, R>> : x \in { <<"tab">>, <<"br">>, <<"sp">> } }
+    \cup { <<RX, <<"sp">>, R>>, << <<"a", <<R>>>>, <<"sp">>, <<"a", <<R>>>> >> }     \* a blank text node between two formatted runs / links
     \cup { <<x>> : x \in Wrappers }
     \cup { <<R, x>> : x \in Wrappers \cup Refs }
     \cup { <<x, R>> : x \in Wrappers \cup Refs }
